@@ -105,7 +105,7 @@ func genDsyev(g *vlib.G) {
 						if g.Stopped() {
 							return
 						}
-						g.Case(fmt.Sprintf("Dsyev n=%d fam=%s uplo=%s prof=%s lda=n+%d lwork=%s", n, f.name, uploName(uplo), p.name, ldx, lw), func(t *vlib.T) {
+						kase(g, fmt.Sprintf("Dsyev n=%d fam=%s uplo=%s prof=%s lda=n+%d lwork=%s", n, f.name, uploName(uplo), p.name, ldx, lw), func(t *vlib.T) {
 							runDsyev(t, n, p, f, uplo, ldx, lw)
 							attributeBlocked(t, p, func(t *vlib.T, p prof) { runDsyev(t, n, p, f, uplo, ldx, lw) })
 						})
@@ -277,7 +277,7 @@ func genDsytrd(g *vlib.G) {
 						if g.Stopped() {
 							return
 						}
-						g.Case(fmt.Sprintf("Dsytrd n=%d fam=%s uplo=%s prof=%s lda=n+%d lwork=%s", n, f.name, uploName(uplo), p.name, ldx, lw), func(t *vlib.T) {
+						kase(g, fmt.Sprintf("Dsytrd n=%d fam=%s uplo=%s prof=%s lda=n+%d lwork=%s", n, f.name, uploName(uplo), p.name, ldx, lw), func(t *vlib.T) {
 							runDsytrd(t, n, p, f, uplo, ldx, lw)
 							attributeBlocked(t, p, func(t *vlib.T, p prof) { runDsytrd(t, n, p, f, uplo, ldx, lw) })
 						})
@@ -456,7 +456,7 @@ func genDstScaled(g *vlib.G) {
 			for _, extra := range []int{0, 40} {
 				for pat := 0; pat < 3; pat++ {
 					n, sc, extra, pat := n, sc, extra, pat
-					g.Case(fmt.Sprintf("Dsterf/Dsteqr n=%d scale=2^%d extra=%d pat=%d", n, sc, extra, pat), func(t *vlib.T) {
+					kase(g, fmt.Sprintf("Dsterf/Dsteqr n=%d scale=2^%d extra=%d pat=%d", n, sc, extra, pat), func(t *vlib.T) {
 						runDstScaled(t, n, sc, extra, pat)
 					})
 				}
